@@ -34,7 +34,7 @@ def extract(repo):
     m = _one(r"assert\s*\(\s*\(\s*prio\s*>=\s*0\s*\)\s*&&\s*\(\s*prio\s*<\s*(\d+)\s*\)\s*\)", imm,
              "priority range assert")
     out += coq_def_N("imm_prio_limit", int(m.group(1)))
-    m = _one(r"while\s*\(\s*\(\s*minq\s*<\s*(\d+)\s*\)\s*&&", imm, "advance loop bound")
+    m = _one(r"\(\s*minq\s*<\s*(\d+)\s*\)\s*&&\s*\(?\s*TAILQ_EMPTY", imm, "advance loop bound")
     out += coq_def_N("imm_advance_limit", int(m.group(1)))
     m = _one(r"if\s*\(\s*minq\s*==\s*(\d+)\s*\)\s*return\s*\(\s*NULL\s*\)", imm, "minq == N test")
     out += coq_def_N("imm_empty_mark", int(m.group(1)))
